@@ -61,6 +61,16 @@ def cmd_replay(prop, path, as_json):
 # ----------------------------------------------------------------------------- worker (one instance, symbolic)
 
 def cmd_worker(prop, inst, out, seed, tier):
+    if isinstance(inst, list):
+        import pyPRISM  # noqa
+        res = []
+        for k, one in enumerate(inst):
+            cmd_worker(prop, one, out + '.part', seed, tier)
+            res.append(json.load(open(out + '.part')))
+            os.unlink(out + '.part')
+            with open(out, 'w') as f:
+                json.dump(res, f)
+        return 0
     warnings.simplefilter('ignore')
     import z3
     from vsym import core, npx
@@ -146,6 +156,35 @@ def load_known():
     return json.load(open(p))
 
 
+def run_batch(prop, insts, seed, tier, default_timeout):
+    """several instances in one worker process (saves interpreter start-up); falls back to per-instance
+    bookkeeping when the process dies or times out"""
+    if len(insts) == 1:
+        return [run_instance(prop, insts[0], seed, tier, default_timeout)]
+    fd, out = tempfile.mkstemp(prefix='vsym-', suffix='.json', dir=os.environ.get('TMPDIR', '/tmp'))
+    os.close(fd); os.unlink(out)
+    cmd = [sys.executable, '-m', 'vsym.main', prop, '--worker', json.dumps(insts), '--out', out, '--seed', str(seed), '--tier', tier]
+    to = sum(i.get('timeout', default_timeout) for i in insts)
+    done = []
+    try:
+        subprocess.run(cmd, cwd=VERIF, capture_output=True, text=True, timeout=to, env=dict(os.environ))
+    except subprocess.TimeoutExpired:
+        pass
+    try:
+        if os.path.exists(out):
+            done = json.load(open(out))
+    except Exception:
+        done = []
+    finally:
+        for f in (out, out + '.part'):
+            if os.path.exists(f):
+                os.unlink(f)
+    res = list(done)
+    for i in insts[len(done):]:          # not reached (crash/timeout inside the batch): run alone
+        res.append(run_instance(prop, i, seed, tier, default_timeout))
+    return res
+
+
 def run_instance(prop, inst, seed, tier, default_timeout):
     fd, out = tempfile.mkstemp(prefix='vsym-', suffix='.json', dir=os.environ.get('TMPDIR', '/tmp'))
     os.close(fd)
@@ -216,8 +255,12 @@ def cmd_driver(prop, tier, only, jobs, seed):
     if extra_diff:
         diffs += extra_diff(seed)
     harness_errors = [d for d in diffs if not d[1]]
+    B = int(getattr(H, 'BATCH', 1))
+    if B > 1:
+        B = max(1, min(B, -(-len(insts) // jobs)))
+    batches = [insts[i:i + B] for i in range(0, len(insts), B)]
     with ThreadPoolExecutor(max_workers=jobs) as ex:
-        results = list(ex.map(lambda i: run_instance(prop, i, seed, tier, default_timeout), insts))
+        results = [r for rs in ex.map(lambda b: run_batch(prop, b, seed, tier, default_timeout), batches) for r in rs]
     known = [k for k in load_known() if k['property'] == prop]
     obligations = discharged = inconclusive = canaries = canaries_ok = 0
     states = transitions = queries = replays = reach = 0
